@@ -136,6 +136,9 @@ type Machine struct {
 	MaxSteps int
 	// Hooks for forms with outside effects (C07): called on entry/exit of with-mutex-lock, with-open-file.
 	Locked map[string]bool
+	// Big is set when an integer beyond 2^31 was computed: the machine's integers are int64 (slip goes on with bignums),
+	// so from there on its results are not the reference any more and the harness sets the case aside.
+	Big bool
 }
 
 // NewMachine returns an empty machine.
@@ -201,6 +204,13 @@ func one(vs []Val) Val {
 		return nil
 	}
 	return vs[0]
+}
+
+func (m *Machine) big(s int64) int64 {
+	if s > 1<<31 || s < -(1<<31) {
+		m.Big = true
+	}
+	return s
 }
 
 func single(v Val) []Val { return []Val{v} }
@@ -976,7 +986,7 @@ func init() {
 		"+": func(m *Machine, a []Val) []Val {
 			s := int64(0)
 			for _, x := range a {
-				s += asInt(x)
+				s = m.big(s + asInt(x))
 			}
 			return single(s)
 		},
@@ -986,14 +996,14 @@ func init() {
 			}
 			s := asInt(a[0])
 			for _, x := range a[1:] {
-				s -= asInt(x)
+				s = m.big(s - asInt(x))
 			}
 			return single(s)
 		},
 		"*": func(m *Machine, a []Val) []Val {
 			s := int64(1)
 			for _, x := range a {
-				s *= asInt(x)
+				s = m.big(s * asInt(x))
 			}
 			return single(s)
 		},
@@ -1003,8 +1013,8 @@ func init() {
 			}
 			return single(asInt(a[0]) / asInt(a[1]))
 		},
-		"1+":   func(m *Machine, a []Val) []Val { return single(asInt(a[0]) + 1) },
-		"1-":   func(m *Machine, a []Val) []Val { return single(asInt(a[0]) - 1) },
+		"1+":   func(m *Machine, a []Val) []Val { return single(m.big(asInt(a[0]) + 1)) },
+		"1-":   func(m *Machine, a []Val) []Val { return single(m.big(asInt(a[0]) - 1)) },
 		"list": func(m *Machine, a []Val) []Val { return single(L(append([]Val{}, a...)...)) },
 		"cons": func(m *Machine, a []Val) []Val {
 			return single(L(append([]Val{a[0]}, asList(a[1])...)...))
